@@ -18,16 +18,25 @@ ASSUMPTIONS = [
 ]
 
 
-def accounting(prep, chunks):
+def accounting(prep, chunks, how="bytes"):
     """after every error-free receive call: messages returned so far == complete outer units delivered so far
-    (counted by the harness' own framing).  Returns a violation or None."""
+    (counted by the harness' own framing).  Returns a violation or None.
+    `how`: the chunk is handed over as fresh bytes, as a memoryview, or in ONE receive buffer (a bytearray) that the caller refills for every
+    read, the normal life of a socket buffer"""
     im, s = PR.fresh(prep)
     delivered = b""
     returned = 0
+    shared = bytearray()
     for idx, ch in enumerate(chunks):
         delivered += ch
         try:
-            ms = s.receive(bytes(ch))
+            if how == "reused-bytearray":
+                shared[:] = ch
+                ms = s.receive(shared)
+            elif how == "memoryview":
+                ms = s.receive(memoryview(bytes(ch)))
+            else:
+                ms = s.receive(bytes(ch))
         except sansldap.ProtocolError:
             return None            # accounted for by an error
         except BaseException as e:  # noqa: BLE001
@@ -82,7 +91,11 @@ def run(ctx):
             parts += [[data[:i], data[i:]] for i in range(len(data) + 1)]
         for chunks in parts:
             evaluations += 1
-            v = accounting(prep, chunks)
+            how = ("bytes", "reused-bytearray", "bytes", "memoryview")[evaluations % 4]
+            hist["input-object:" + how] += 1
+            v = accounting(prep, chunks, how)
+            if v:
+                v["input_object"] = how
             hist[kind] += 1
             distinct.add((data, tuple(len(c) for c in chunks)))
             if v:
@@ -118,5 +131,5 @@ def run(ctx):
 def replay(ctx, payload):
     print(json.dumps({k: v for k, v in payload.items() if k not in ("chunks",)}, indent=1)[:2000])
     if "chunks" in payload:
-        print("re-run:", accounting(payload["prep"], [bytes.fromhex(c) for c in payload["chunks"]]))
+        print("re-run:", accounting(payload["prep"], [bytes.fromhex(c) for c in payload["chunks"]], payload.get("input_object", "bytes")))
     return 0
